@@ -10,6 +10,8 @@ pub trait Merge {
     where
         Self: Sized,
     {
+        #[cfg(feature = "verif")]
+        let _depth = crate::verif::enter("merge");
         let items: Vec<Self> = items.into_iter().collect();
         let original_len = items.len();
         let merged = Self::second_pass_merge(items);
@@ -29,6 +31,8 @@ pub trait Merge {
         let mut new_groups: Vec<Self> = vec![];
         for item in items.into_iter() {
             if !new_groups.iter_mut().rev().any(|new_group| {
+                #[cfg(feature = "verif")]
+                crate::verif::step();
                 if let Some(new_merged) = new_group.merge(&item) {
                     *new_group = new_merged;
                     true
